@@ -68,6 +68,9 @@ var c04AssetSpecs = []struct {
 	// the SAME token contract on a second client chain whose hex id (0x6) is a prefix of the first one's (0x65): asset ids
 	// <addr>_0x6 and <addr>_0x65, each with its own oracle token and price
 	{"0xdAC17F958D2ee523a2206206994597C13D831ec7", 4, 5, 6},
+	// a second asset with 0 decimals whose id sorts AFTER every asset with non-zero decimals (the first one, 0x1111.., sorts
+	// before all of them): anything that carries a field over from the previously decoded asset shows up here
+	{"0xeeeeeeeeeeeeeeeeeeeeeeeeeeeeeeeeeeeeeeee", 0, 6, 101},
 }
 
 func c04NewWorld(ops []OperatorCfg) *c04World {
@@ -167,6 +170,19 @@ func (w *c04World) oraclePrice(ctx sdk.Context, assetID string) (class string, p
 		return "default", "1", 0
 	}
 	return "ok", v.String(), int64(uint8(tr.Decimal))
+}
+
+// assetDecimals reads the asset's stored StakingAssetInfo straight from the assets store (own decode into a fresh struct; not
+// through GetAssetsDecimal / GetStakingAssetInfo).
+func (w *c04World) assetDecimals(ctx sdk.Context, assetID string) (int64, bool) {
+	st := prefix.NewStore(ctx.KVStore(w.Env.App.GetKey(assetstypes.StoreKey)), assetstypes.KeyPrefixReStakingAssetInfo)
+	bz := st.Get([]byte(assetID))
+	if bz == nil {
+		return 0, false
+	}
+	var info assetstypes.StakingAssetInfo
+	w.Env.App.AppCodec().MustUnmarshal(bz, &info)
+	return int64(info.AssetBasicInfo.Decimals), true
 }
 
 func (w *c04World) setPrice(ctx sdk.Context, ai int, price string, dec int32, found bool) {
@@ -573,11 +589,7 @@ func (w *c04World) observeEnv(ctx sdk.Context, ids *c04IDs, avss []string) c04En
 	for i, a := range w.Assets {
 		ai := c04AInfo{ID: i, Price: "0"}
 		ai.Class, ai.Price, ai.PDec = w.oraclePrice(ctx, a.ID)
-		info, err := app.AssetsKeeper.GetStakingAssetInfo(ctx, a.ID)
-		if err == nil {
-			ai.Known = true
-			ai.Dec = int64(info.AssetBasicInfo.Decimals)
-		}
+		ai.Dec, ai.Known = w.assetDecimals(ctx, a.ID)
 		e.Assets = append(e.Assets, ai)
 	}
 	for _, avs := range avss {
@@ -837,6 +849,9 @@ func (g *c04Gen) mature(ctx sdk.Context, upTo int64) sdk.Context {
 func (g *c04Gen) randomPrices(ctx sdk.Context) {
 	for ai := range g.w.Assets {
 		pdec := int32(g.rng.Intn(19))
+		if g.rng.Intn(6) == 0 {
+			pdec = 0
+		}
 		switch g.rng.Intn(12) {
 		case 0:
 			g.w.setPrice(ctx, ai, "1", 0, false) // round not found -> default price
